@@ -35,7 +35,8 @@ namespace nmtools::array
         using resolver_t = eval_result_t<>;
         return eval(a,context_t{},output_t{},meta::as_value_v<resolver_t>);
         #else
-        auto slices_pack = nmtools_tuple{slices...};
+        // NOTE: explicit template arguments: with a single tuple-typed slice, CTAD would copy it instead of wrapping it
+        auto slices_pack = nmtools_tuple<slices_t...>{slices...};
         return apply_slice(array,slices_pack);
         #endif
     }
